@@ -22,7 +22,7 @@ var c16Triggers = []string{"local-close", "peer-close", "peer-violation", "read-
 func runC16(r *Run) {
 	t := r.Tape
 	trig := t.Draw(len(c16Triggers))
-	echo := t.Draw(3) // 0 at once, 1 after a delay, 2 never
+	echo := t.Draw(4) // 0 at once, 1 after a delay, 2 never, 3 a protocol violation instead of the echo
 	rc, err := r.drawRawConn("c0", 0)
 	if err != nil {
 		r.Violate("handshake-failed", "raw", "handshake failed: %v", err)
@@ -54,7 +54,7 @@ func runC16(r *Run) {
 	r.D("role_lib_client", rc.Opts.LibClient)
 	r.D("ext", rc.Opts.Ext)
 	r.D("trigger", c16Triggers[trig])
-	r.D("echo", []string{"at-once", "delayed", "never"}[echo])
+	r.D("echo", []string{"at-once", "delayed", "never", "violation-instead"}[echo])
 	r.D("writers", nW)
 	r.D("pingers", nP)
 	r.D("fire_after", fireAfter)
@@ -226,6 +226,10 @@ func runC16(r *Run) {
 				echoed = true
 				if echo == 1 {
 					r.S.Sleep(time.Second)
+				}
+				if echo == 3 {
+					peer.Send(wsref.Frame{Fin: true, Opcode: 3, Payload: []byte("not an echo")})
+					continue
 				}
 				peer.Send(wsref.Frame{Fin: true, Opcode: wsref.OpClose, Payload: f.Payload})
 				if peerDataAfterClose {
